@@ -11,6 +11,9 @@
 //!        c14bb2 mcs0
 //!          h2c backend that lowers MAX_CONCURRENT_STREAMS to 0 on an established idle connection; the next
 //!          request must not open a stream there once sozu has acknowledged the SETTINGS.
+//!        c14bb2 shrink
+//!          the backend shrinks SETTINGS_INITIAL_WINDOW_SIZE below the data in flight (window -64535), then grants
+//!          64545: exactly 10 more bytes may follow; its byte ledger is race-free (it only grants after silence).
 //!        c14bb2 burst <n>
 //!          h2c backend announcing MAX_CONCURRENT_STREAMS = 1; the client opens n requests at once.
 //! The backend keeps the RFC 9113 5.1 stream states per connection; a HEADERS that makes more streams
@@ -36,6 +39,9 @@ struct BackCfg {
     mcs0_after_first: bool,
     /// answer every request only after this delay (so concurrent requests really overlap)
     delay_ms: u64,
+    /// byte ledger with a SETTINGS shrink below the data in flight: once a stream has used its whole 65535 window,
+    /// announce INITIAL_WINDOW_SIZE = 1000 (the window becomes -64535), then grant 64545: exactly 10 more bytes are allowed
+    shrink: bool,
 }
 
 fn conn_thread(mut s: std::net::TcpStream, cfg: BackCfg, conn_no: usize, tx: mpsc::Sender<String>) {
@@ -69,6 +75,7 @@ fn conn_thread(mut s: std::net::TcpStream, cfg: BackCfg, conn_no: usize, tx: mps
     let mut held: BTreeSet<u32> = BTreeSet::new();
     let mut answered = 0usize;
     let mut idle = 0;
+    let (mut received, mut credit, mut flagged, mut phase, mut shrink_sid) = (0i64, 65535i64, false, 0u32, 0u32);
     let mut owed_conn = 0u32;
     let mut owed_stream: std::collections::HashMap<u32, u32> = std::collections::HashMap::new();
     loop {
@@ -103,6 +110,21 @@ fn conn_thread(mut s: std::net::TcpStream, cfg: BackCfg, conn_no: usize, tx: mps
                     }
                     if f.flags & 1 != 0 {
                         due.push((Instant::now() + Duration::from_millis(cfg.delay_ms), f.sid));
+                    }
+                }
+                T_DATA if cfg.shrink => {
+                    let n = f.payload.len() as i64;
+                    received += n;
+                    if received > credit && !flagged {
+                        flagged = true;
+                        let _ = tx.send(format!(
+                            "viol over-stream-window backend stream {}: {received} DATA bytes received, {credit} granted (65535, then SETTINGS initial window 1000 = -64535, then WINDOW_UPDATE +64545; phase {phase})",
+                            f.sid
+                        ));
+                    }
+                    shrink_sid = f.sid;
+                    if f.flags & 1 != 0 {
+                        due.push((Instant::now(), f.sid));
                     }
                 }
                 T_DATA => {
@@ -145,6 +167,23 @@ fn conn_thread(mut s: std::net::TcpStream, cfg: BackCfg, conn_no: usize, tx: mps
             Ok(n) => acc.extend_from_slice(&buf[..n]),
             Err(e) if e.kind() == std::io::ErrorKind::WouldBlock || e.kind() == std::io::ErrorKind::TimedOut => {
                 idle += 1;
+                // silence: the sender is blocked (or done)
+                if cfg.shrink && shrink_sid != 0 && idle >= 4 && open.contains(&shrink_sid) {
+                    if phase == 0 && received >= 65535 {
+                        let mut b = settings(&[(4, 1000)]);
+                        b.extend(frame(T_WU, 0, shrink_sid, &64545u32.to_be_bytes()));
+                        let _ = s.write_all(&b);
+                        credit += 1000 - 65535 + 64545;
+                        phase = 1;
+                        idle = 0;
+                    } else if phase >= 1 && received >= credit {
+                        // let the rest through, one window at a time
+                        let _ = s.write_all(&frame(T_WU, 0, shrink_sid, &60000u32.to_be_bytes()));
+                        credit += 60000;
+                        phase += 1;
+                        idle = 0;
+                    }
+                }
                 if idle > 400 {
                     return;
                 }
@@ -208,10 +247,11 @@ fn main() {
     let back = back_listener.local_addr().unwrap();
     let (tx, rx) = mpsc::channel::<String>();
     let cfg = match mode.as_str() {
-        "cancel" => BackCfg { mcs: Some(1), hold_first: true, mcs0_after_first: false, delay_ms: 0 },
-        "mcs0" => BackCfg { mcs: Some(100), hold_first: false, mcs0_after_first: true, delay_ms: 0 },
-        "burst" => BackCfg { mcs: Some(1), hold_first: false, mcs0_after_first: false, delay_ms: 300 },
-        _ => BackCfg { mcs: None, hold_first: false, mcs0_after_first: false, delay_ms: 0 },
+        "cancel" => BackCfg { mcs: Some(1), hold_first: true, mcs0_after_first: false, delay_ms: 0, shrink: false },
+        "mcs0" => BackCfg { mcs: Some(100), hold_first: false, mcs0_after_first: true, delay_ms: 0, shrink: false },
+        "shrink" => BackCfg { mcs: None, hold_first: false, mcs0_after_first: false, delay_ms: 0, shrink: true },
+        "burst" => BackCfg { mcs: Some(1), hold_first: false, mcs0_after_first: false, delay_ms: 300, shrink: false },
+        _ => BackCfg { mcs: None, hold_first: false, mcs0_after_first: false, delay_ms: 0, shrink: false },
     };
     let txb = tx.clone();
     std::thread::spawn(move || backend(back_listener, cfg, txb));
@@ -220,6 +260,7 @@ fn main() {
     if mode == "pad" {
         l.h2_initial_connection_window = Some(65535);
     }
+    // "tiny": the same upload with the default (1 MiB) connection window, so thousands of small frames queue up for one ready() call
     configure_https(&mut w, l, front, back, true);
 
     let Some(mut p) = Peer::connect(front) else {
@@ -231,7 +272,7 @@ fn main() {
         std::process::exit(0);
     }
     match mode.as_str() {
-        "pad" => {
+        "pad" | "tiny" => {
             let nframes: usize = args.get(2).and_then(|x| x.parse().ok()).unwrap_or(600);
             let dlen: usize = args.get(3).and_then(|x| x.parse().ok()).unwrap_or(10);
             let pad: usize = args.get(4).and_then(|x| x.parse().ok()).unwrap_or(255).min(255);
@@ -297,7 +338,9 @@ fn main() {
                     "viol receiver-credit-stalled padded upload: {sent} of {nframes} frames sent ({consumed} wire bytes incl. padding), sozu credited back {credit_stream} on the stream and {credit_conn} on the connection; client windows left {win}/{conn_win}, answer {status:?}"
                 );
             }
-            if credit_stream > consumed || credit_conn > consumed {
+            // tiny mode: the listener enlarges the connection window once (1 MiB - 65535) on top of what it consumes
+            let allowance = if mode == "tiny" { (1i64 << 20) - 65535 } else { 0 };
+            if credit_stream > consumed || credit_conn > consumed + allowance {
                 println!("viol receiver-over-credit sozu credited more than it consumed: stream {credit_stream}, connection {credit_conn}, consumed {consumed}");
             }
         }
@@ -322,6 +365,45 @@ fn main() {
             println!("obs mcs0 first_answer={a1:?} second_answer={a3:?}");
             if a1 != Some(0x88) || a3 != Some(0x88) {
                 println!("viol request-lost a request was not answered 200 around the MAX_CONCURRENT_STREAMS = 0 change ({a1:?}, {a3:?})");
+            }
+        }
+        "shrink" => {
+            // upload 200000 bytes respecting sozu's windows toward us
+            let body = 200000usize;
+            let (mut win, mut conn_win) = (65535i64, 65535i64);
+            for f in &p.early {
+                if f.t == T_WU && f.sid == 0 && f.payload.len() == 4 {
+                    conn_win += u32::from_be_bytes([f.payload[0], f.payload[1], f.payload[2], f.payload[3]]) as i64;
+                }
+            }
+            p.send(&frame(T_HEADERS, 4, 1, &request_block(true, "/shrink")));
+            let mut left = body;
+            let t0 = Instant::now();
+            let mut status = None;
+            while status.is_none() && !p.closed && t0.elapsed() < Duration::from_secs(25) {
+                while left > 0 && win > 0 && conn_win > 0 {
+                    let n = left.min(16384).min(win as usize).min(conn_win as usize);
+                    left -= n;
+                    win -= n as i64;
+                    conn_win -= n as i64;
+                    p.send(&frame(T_DATA, (left == 0) as u8, 1, &vec![b's'; n]));
+                }
+                for f in p.read_until(Duration::from_millis(200), |f| !f.is_empty()) {
+                    match f.t {
+                        T_WU if f.payload.len() == 4 => {
+                            let inc = u32::from_be_bytes([f.payload[0], f.payload[1], f.payload[2], f.payload[3]]) as i64;
+                            if f.sid == 0 { conn_win += inc } else if f.sid == 1 { win += inc }
+                        }
+                        T_HEADERS if f.sid == 1 => status = f.payload.first().copied(),
+                        T_RST if f.sid == 1 => status = Some(0),
+                        T_GOAWAY => status = Some(1),
+                        _ => {}
+                    }
+                }
+            }
+            println!("obs shrink body_left={left} status={status:?}");
+            if status != Some(0x88) {
+                println!("viol transfer-stalled the upload across a SETTINGS shrink did not complete (left {left}, answer {status:?})");
             }
         }
         "burst" => {
